@@ -646,6 +646,14 @@ def package_case(rng, where, entry, with_spec, auto, built=False, second=None):
         c[rng.choice(['requires', 'requires_private'])].append(
             ['dep1', rng.choice([None, '>=1.2', '<2.0'])])
         c['deps']['dep1']['good'] = '1.5'
+    # the package a LIBRARY brings in (with its own version bound) is also named in the
+    # description's explicit lists, without a version or with a bound that excludes nothing
+    # more: the two sources of one requirement have to be merged, not one dropped
+    w0, (pname0, subs0, pcnames0), spec0 = picks[0]
+    if w0.startswith('lib:') and spec0 and rng.random() < 0.7:
+        c[rng.choice(['requires', 'requires', 'requires_private'])].append(
+            [pcnames0[0], rng.choice([None, None, '>=0.1'])])
+        c['explicit_and_library_requirement'] = pcnames0[0]
     return c
 
 
